@@ -28,7 +28,10 @@ RULE = ('Exhaustive product of: platform {default,P} x package default environme
         '%(global)s and system-variable references)} x {7 P-platform layer templates (absent, defined-but-empty, overlapping+disjoint '
         'keys, '
         'override of a referenced key, DEFAULTS on the P layer, self references, PATH idiom)} x selection spelling '
-        '{unset, "", none/NONE/None, environment/Environment/ENVIRONMENT, name lower/Mixed/UPPER, via %(variable)s} x '
+        '{unset, "", none/NONE/None, environment/Environment/ENVIRONMENT, name lower/Mixed/UPPER, via %(variable)s; plus named '
+        'environments whose names have no cased character, on which case normalisation is the identity ("2024", '
+        '"3.11", "_", "7-1.0_2": d-only, p-only, both, both with DEFAULTS on each layer; selected directly and via a '
+        'variable)} x '
         'interpreter {no, yes} (the via-variable spelling, and in quick the UPPER spelling of named environments, only '
         'without interpreter); definitions are spelled in rotating case. Two drivers (in-memory graph, on-disk '
         'package). Thorough adds 3+2 layer templates (empty DEFAULTS segments, reference chains, library-path idiom), '
